@@ -10,6 +10,7 @@ constructor's unit in seconds.  Obligations per function (sibling agreement, no 
   S2  every term fed from `femptos` denotes  S_U / 10^N  seconds per count, N = the number of decimal places FixedPoint::parse pads to
 
 `T#0.5h`: whole -> Duration::hours(whole) gives S_U = 3600; the fraction must then be worth 3600e-15 s per count."""
+import re
 from fractions import Fraction
 from vlib.mir import op_place, loc_str, norm
 from vlib import facts as F
@@ -119,6 +120,57 @@ def fractional_units(ctx):
                     ns.add(int(a[3]["int"]))
     if len(ns) == 1:
         return 10 ** next(iter(ns))
+    if not ns:
+        # the same padding written with the formatter: format!("{:0<width$}", digits, width = N) - left-aligned, filled with zeros up to N places.
+        # N is the constant handed to the formatter as the width; the fill/alignment is read from the format string in the source.
+        import os
+        from vlib import facts as FF
+        from vlib.mir import op_place
+        for b in ctx.prog.get("ironplc_dsl::common::FixedPoint::parse"):
+            widths = set()
+            for c in b.calls():
+                if (c.callee or "").endswith("fmt::rt::Argument::from_usize") and c.args:
+                    o = c.args[0]
+                    k = None
+                    if o[0] == "c" and len(o) > 3 and isinstance(o[3], dict) and "int" in o[3]:
+                        k = int(o[3]["int"])
+                    else:
+                        p = op_place(o)
+                        src = None
+                        for _ in range(8):          # through references and through the (arg0, arg1, ..) tuple that format_args! builds
+                            if p is None:
+                                break
+                            rt = b.root(p)
+                            d = b.single_def(rt[0])
+                            fs = [x for x in rt[1] if isinstance(x, list) and x[0] == "f"]
+                            if d and d[0] == "stmt" and d[3][0] == "agg" and isinstance(d[3][1], dict) and d[3][1].get("k") == "tuple" and fs and str(fs[0][2]).isdigit():
+                                p = op_place(d[3][2][int(fs[0][2])])
+                                continue
+                            if d and d[0] == "stmt" and d[3][0] == "use":
+                                if d[3][1][0] == "c":
+                                    src = d[3][1]
+                                    break
+                                p = op_place(d[3][1])
+                                continue
+                            if d and d[0] == "stmt" and d[3][0] == "ref":
+                                p = d[3][2]
+                                continue
+                            break
+                        if src is not None and src[0] == "c" and "promoted[" in str(src[2]):
+                            idx = int(str(src[2]).split("promoted[")[1].split("]")[0])
+                            for po in (b.f.get("promoted") or [])[idx:idx + 1]:
+                                for q in po:
+                                    if len(q) > 3 and isinstance(q[3], dict) and "int" in q[3]:
+                                        k = int(q[3]["int"])
+                    if k is not None:
+                        widths.add(k)
+            try:
+                text = "\n".join(open(os.path.join(FF.WS, b.f["file"]), encoding="utf-8").read().splitlines()[b.f["line"] - 1:b.f.get("endline", b.f["line"])])
+            except OSError:
+                text = ""
+            zero_left = re.search(r'format!\s*\(\s*"\{:0<\w*\$?\}"', text) is not None
+            if len(widths) == 1 and zero_left:
+                return 10 ** next(iter(widths))
     return None
 
 
